@@ -70,3 +70,10 @@ CLASSES = {}      # class name -> {'file': relpath or None, 'fields': {name: typ
 
 def declare_class(name, file=None, fields=None):
     CLASSES[name] = {'file': file, 'fields': dict(fields or {})}
+
+
+UFUNCS = {}       # name -> (arg sorts, result sort) with sorts in {'int','bool','real','elem'}: uninterpreted spec functions
+
+
+def declare_ufunc(name, args, result):
+    UFUNCS[name] = (list(args), result)
